@@ -26,7 +26,7 @@ CFG = ["tls"]
 
 
 def C12_1(ctx, facts):
-    f = facts.method("client::conn::transport::TlsTransport", "Service", "call")
+    f = facts.unit(facts.method("client::conn::transport::TlsTransport", "Service", "call"))
     ctx.touched(f)
     sw, reg = arms(f, "InnerBraid")
     if set(reg) != {"Plain", "Tls"}:
@@ -75,7 +75,7 @@ def C12_1(ctx, facts):
 
 
 def C12_2(ctx, facts):
-    f = facts.method("client::conn::transport::tls::future::TlsConnectionFuture", "Future", "poll")
+    f = facts.unit(facts.method("client::conn::transport::tls::future::TlsConnectionFuture", "Future", "poll"))
     ctx.touched(f)
     hs = [c for c in f.calls() if norm(c.decl or c.name).endswith("poll_handshake")]
     ctx.floor("TlsConnectionFuture::poll|poll_handshake", len(hs), 1, "poll_handshake calls")
@@ -129,7 +129,7 @@ def C12_2(ctx, facts):
 
 
 def C12_3(ctx, facts):
-    call = facts.method("client::conn::transport::tls::TlsTransportWrapper", "Service", "call")
+    call = facts.unit(facts.method("client::conn::transport::tls::TlsTransportWrapper", "Service", "call"))
     ctx.touched(call)
     news = call.calls("client::conn::transport::tls::future::TlsConnectionFuture::new")
     conns = [c for c in call.calls() if norm(c.decl or c.name).endswith("Transport::connect")]
@@ -151,7 +151,7 @@ def C12_3(ctx, facts):
                   "the transport can be connected although the URI has no host", c.where(), call.path_desc(w))
     nod = [b for (b, i, s) in call.aggregates("client::conn::transport::TlsConnectionError", "NoDomain")]
     ctx.floor("TlsTransportWrapper::call|NoDomain", len(nod), 1, "NoDomain error")
-    new = facts.fn("client::conn::stream::tls::TlsStream::new")
+    new = facts.unit(facts.fn("client::conn::stream::tls::TlsStream::new"))
     ctx.touched(new)
     tc = [c for c in new.calls() if norm(c.name).endswith("TlsConnector::connect")]
     ctx.floor("TlsStream::new|connect", len(tc), 1, "TlsConnector::connect")
@@ -165,7 +165,7 @@ def C12_3(ctx, facts):
         ctx.check(any(r.kind == "arg" and r.desc == "stream" for r in rs), "TlsStream::new|wraps-stream", "the TLS connector wraps the given stream", "stream roots differ", c.where())
         rc = new.roots(c.args[0])
         ctx.check(any(r.kind == "arg" and r.desc == "config" for r in rc), "TlsStream::new|uses-config", "the connector is built from the given client configuration", "config roots differ", c.where())
-    tls = facts.fn("client::conn::stream::Stream::tls")
+    tls = facts.unit(facts.fn("client::conn::stream::Stream::tls"))
     tn = tls.calls("client::conn::stream::tls::TlsStream::new")
     for c in tn:
         ok = any(r.kind == "arg" and r.desc == "domain" for r in tls.roots(c.args[1])) and any(r.kind == "arg" and r.desc == "config" for r in tls.roots(c.args[2]))
